@@ -27,6 +27,9 @@ A program (JSON-able dict):
                "with.-" ... "end"      a nested `async with cache.transaction(mode, timeout):` (an object of its own)
                "with.d" ... "end"      a call of a function decorated with `@cache.transaction(mode, timeout)` whose body is ...
               (the tokens between a `with` and its `end` are the nested block's body; blocks nest to any depth)
+               "commit" / "rollback"   `await tx.commit()` / `await tx.rollback()` in the MIDDLE of the body, on the Transaction that the
+                                       nearest enclosing `async with ... as tx` returned (not available at the top level of a
+                                       decorated outermost block); the block goes on afterwards
               `incr` with a ttl, `expire`, `setx`/`setnx` are read-modify-writes: each can issue a backend READ of its own
               (get / exists) after the key's lock was taken, and that read can fail.
     obj       (optional) i: the OUTERMOST block is `async with T[i]:` on shared context object i, so a `with.<i>` in the body
@@ -339,6 +342,22 @@ def valid_body(body) -> bool:
     return depth == 0
 
 
+def valid_prog(prog) -> bool:
+    """balanced with/end, and every `commit` / `rollback` token has a Transaction object at hand (`async with ... as tx`)"""
+    if not valid_body(prog["body"]):
+        return False
+    have = [prog.get("form") != "decor"]
+    for c in prog["body"]:
+        h = c.split(".")
+        if h[0] == "with":
+            have.append(True if h[1] != "d" else have[-1])
+        elif h[0] == "end":
+            have.pop()
+        elif h[0] in ("commit", "rollback") and not have[-1]:
+            return False
+    return True
+
+
 def model_obj(prog):
     """the context object of the outermost block as the model sees it: the decorator form builds an object of its own per call"""
     return prog.get("obj") if prog.get("form") != "decor" else None
@@ -470,7 +489,10 @@ async def _run(prog, faults, rels):
                 await release(j, idx, wait=name != "unlock")
 
     outs = []
-    state = {"body_end": None, "body_raised": False, "starts": []}
+    # base: the entries the store has to show after a failed body = the initial content, or what it held right after the last
+    # explicit tx.commit() of the body ({key: "v@dl"}; None = undefined: an explicit commit failed half-way)
+    state = {"body_end": None, "body_raised": False, "starts": [], "explicit": [], "write_floor": 0,
+             "base": {f"{b}.{k}": f"{v}@{'-' if ttl is None else ttl}" for b, k, v, ttl in prog["data"]}}
 
     if not valid_body(prog["body"]):
         raise ValueError(f"unbalanced with/end in {prog['body']}")
@@ -482,7 +504,7 @@ async def _run(prog, faults, rels):
             TX[i] = cache.transaction(MODES[mode], timeout=timeout_s)
         return TX[i]
 
-    async def run_tokens(i, stop):
+    async def run_tokens(i, stop, cur):
         tokens = prog["body"]
         while i < stop:
             c = tokens[i]
@@ -493,18 +515,36 @@ async def _run(prog, faults, rels):
                 if w[1] == "d":
                     @cache.transaction(MODES[mode], timeout=timeout_s)
                     async def inner_decorated():
-                        await run_tokens(i + 1, j)
+                        await run_tokens(i + 1, j, cur)
                     await inner_decorated()
                 elif w[1] == "-":
-                    async with cache.transaction(MODES[mode], timeout=timeout_s):
-                        await run_tokens(i + 1, j)
+                    async with cache.transaction(MODES[mode], timeout=timeout_s) as t:
+                        await run_tokens(i + 1, j, t)
                 else:
-                    async with tx_obj(int(w[1])):
-                        await run_tokens(i + 1, j)
+                    async with tx_obj(int(w[1])) as t:
+                        await run_tokens(i + 1, j, t)
                 state["starts"].append(REC.n)          # the `end` token
                 i = j + 1
                 continue
-            if w[0] == "set":
+            if w[0] in ("commit", "rollback"):
+                if cur is None:
+                    raise ValueError("commit / rollback at the top level of a decorated block: no Transaction object at hand")
+                state["explicit"].append((w[0], REC.n))
+                try:
+                    await (cur.commit() if w[0] == "commit" else cur.rollback())
+                except BaseException:
+                    if w[0] == "commit":
+                        state["base"] = None            # a commit that failed half-way: what it applied is compared with the model only
+                    raise
+                finally:
+                    state["write_floor"] = REC.n
+                if w[0] == "commit" and state["base"] is not None:
+                    tok = _DEPTH.set(1)                  # the harness's own reads are not commands of the program
+                    try:
+                        state["base"] = await snapshot_entries()
+                    finally:
+                        _DEPTH.reset(tok)
+            elif w[0] == "set":
                 b, k, v = int(w[1]), int(w[2]), int(w[3])
                 r = await cache.set(kname(b, k), v, expire=None if w[4] == "-" else int(w[4]) * TICK)
                 outs.append("T" if r is True else "F" if r is False else f"?{r!r}")
@@ -545,9 +585,9 @@ async def _run(prog, faults, rels):
                 raise ValueError(f"unknown body command {c}")
             i += 1
 
-    async def body():
+    async def body(cur):
         try:
-            await run_tokens(0, len(prog["body"]))
+            await run_tokens(0, len(prog["body"]), cur)
         except BaseException:
             state["body_raised"] = True
             raise
@@ -563,11 +603,11 @@ async def _run(prog, faults, rels):
         if prog.get("form") == "decor":
             @outer
             async def decorated():
-                await body()
+                await body(None)
             await decorated()
         else:
-            async with outer:
-                await body()
+            async with outer as handle:
+                await body(handle)
     except (InjectedInteraction, InjectedRuntime) as e:
         exc = f"fault:{e.idx}"
     except LockedError:
@@ -597,13 +637,19 @@ async def _run(prog, faults, rels):
     times = dict(REC.times)       # (a command still suspended when the block was left - never on a correct tree - took effect later)
     after = await snapshot()
     after_entries = await snapshot_entries()
-    # what an untouched store shows at this instant: the initial content minus what has expired meanwhile
+    # what an untouched store shows at this instant: the base content (initial, or as of the last explicit commit) minus what has
+    # expired meanwhile
     untouched = {f"{b}.{k}": None for b, k in universe}
     untouched_entries = dict(untouched)
-    for b, k, v, ttl in prog["data"]:
-        live = ttl is None or CLOCK.t < BASE + ttl * TICK
-        untouched[f"{b}.{k}"] = v if live else None
-        untouched_entries[f"{b}.{k}"] = f"{v}@{'-' if ttl is None else ttl}" if live else None
+    base = state["base"]
+    for key, ent in (base or {}).items():
+        if ent is None:
+            continue
+        v, dl = ent.rsplit("@", 1)
+        live = dl == "-" or (dl.lstrip("-").isdigit() and CLOCK.t < BASE + int(dl) * TICK)
+        if live:
+            untouched[key] = int(v)
+            untouched_entries[key] = ent
     # remaining lock keys (raw presence, whatever their age): `get_raw` ignores deadlines
     remaining = []
     for b, lk in lock_universe(prog):
@@ -661,12 +707,16 @@ async def _run(prog, faults, rels):
         "untouched_entries": untouched_entries,
         "after_entries": after_entries,
         # write commands that reached a backend and RAN (one that was made to fail had no effect here)
-        "writes_sent": [show_event(e) for e in trace if e[2] in WRITE_COMMANDS and not e[5]],
+        "writes_sent": [show_event(e) for e in trace if e[2] in WRITE_COMMANDS and not e[5] and e[0] >= state["write_floor"]],
+        "base_defined": base is not None,
+        "explicit": state["explicit"],
         "before": before,
         "untouched": untouched,
         "after": after,
         "body_end": state["body_end"],
         "body_raised": state["body_raised"],
+        # the unlock commands in trace order, gather after gather (the model's gather number n reads its order from position
+        # "unlocks issued so far" on)
         "uprio": [(b, _lkidx(b, args[0])) for _, b, name, args, _, _, _ in trace if name == "unlock"],
         "unlocks_ev": {i: (b, _lkidx(b, args[0])) for i, b, name, args, _, _, _ in trace if name == "unlock"},
         "failed": [i for i, *_r in trace if _r[4]],
@@ -736,7 +786,11 @@ def oracle(prog, obs) -> list[str]:
             bad.append("lock-left-although-its-unlock-did-not-fail")
         elif dl == "?":
             bad.append("left-lock-does-not-lapse-at-the-timeout")
-    if obs["body_raised"] and obs["after"] != obs["untouched"]:
+    if not obs["base_defined"]:
+        pass            # an explicit tx.commit() of the body failed half-way: what it applied is judged against the model only
+    elif obs["body_raised"] and obs["after"] != obs["untouched"]:
+        # (with explicit tx.commit() calls in the body: nothing written SINCE THE LAST OF THEM - theorem
+        # failure_applies_nothing_since_last_commit)
         bad.append("failed-body-changed-the-store")
     elif obs["body_raised"] and obs["after_entries"] != obs["untouched_entries"]:
         # same keys, same values - but an entry does not lapse when it did before the block (theorem
